@@ -139,6 +139,9 @@ def fw(gens, tags, mech=None, **kw):
 PROPS = {
     "C05": fw([("general", 1500, 40000)], ALL_FW_TAGS,
               assumptions=["the correspondence samples histories; the bounded-exhaustive family of the property's quantifier is part of the thorough tier"]),
+    "C01": fw([("general", 2500, 60000)], {"res", "len", "L"}, mech=["LR", "CZ", "SIG", "END", "batch"],
+              assumptions=["u64 packet counters are modelled as unbounded naturals (overflow needs 2^64 reported events)",
+                           "machines have the shape of the Rust types (13 transition slots); proved for everything the bincode decoder accepts (C11)"]),
     "C02": fw([("general", 2500, 40000)], {"A", "RP", "G", "res", "len"}, mech=["aP"],
               assumptions=["packet counts below 2^53 (u64 -> f64 conversion exact); u64 counter overflow needs 2^64 events and is not modelled"]),
     "C03": fw([("general", 2500, 40000)], {"A", "RB", "G", "res", "len"}, mech=["aB"],
